@@ -1,6 +1,7 @@
 """Effect rules: PURE-observers (C15, C06), AUTH-sketch-record / PAIR-readop-once / CONST-masks (C14),
 removal-cause classification shared with C03/C07."""
 from .core import RuleResult, CheckFailure
+from .roles import named
 from .kernel import norm
 from .roles import (get_roles, HASHMAP_MUT, HASHMAP_REMOVE, HASHMAP_INSERT, DASHMAP_MUT, DASHMAP_REMOVE, CHAN_SEND, SKETCH)
 from .symex import fmt, subterms, PathLimit
@@ -137,7 +138,9 @@ def rule_pure_observers(ctx, only_timestamps=False):
                         r.instance(observer=o, removal_in=x, callee=callee, causes=sorted(cs), allowed=ok)
                         if not ok:
                             path = prog.call_path(o, lambda y: y == x)
-                            r.violate(o, 'map-removal-not-expiry', x, 'observer %s can remove a map entry that is not expired (in %s): '
+                            from .roles import _FALLBACK, named as _nm
+                            alias = next((k for k in _FALLBACK if _nm(ctx, k) == x), x)
+                            r.violate(o, 'map-removal-not-expiry', alias, 'observer %s can remove a map entry that is not expired (in %s): '
                                       'a later lookup/iteration can observe the difference' % (o.split('::')[-1], x),
                                       where=ctx.where(x, line), path=path, expected='removals reachable from an observer are dominated by the expiry predicate')
         if only_timestamps:
@@ -223,13 +226,13 @@ def rule_auth_sketch_record(ctx):
             holders = eff.who_has(e)
             for h in holders:
                 root = prog.bodies[h].root or h
-                ok = root == 'sync::base_cache::BaseCache::get_with_hash'
+                ok = root == named(ctx, 'sync.get_lookup')
                 r.instance(readop=variant, constructed_in=h, allowed=ok)
                 if not ok:
                     r.violate(h, 'readop-construct', variant, 'ReadOp::%s constructed outside get' % variant, where=ctx.where(h))
         # who can reach the ReadOp-constructing function: only get
         pubs = [p for p in prog.public_api() if p.startswith('sync::cache::Cache::') or p.startswith('<sync::') or p.startswith('<&sync::')]
-        getters = {p for p in pubs if 'sync::base_cache::BaseCache::get_with_hash' in prog.reachable_from([p])}
+        getters = {p for p in pubs if named(ctx, 'sync.get_lookup') in prog.reachable_from([p])}
         allowed = {'sync::cache::Cache::get', 'sync::cache::Cache::get_if_present'}
         for g in sorted(getters):
             ok = g in allowed
@@ -257,8 +260,8 @@ def rule_pair_readop_once(ctx):
     prog = ctx.prog
     R = get_roles(ctx)
     targets = []
-    if 'sync::base_cache::BaseCache::get_with_hash' in prog.bodies:
-        targets.append(('sync::base_cache::BaseCache::get_with_hash', 'send'))
+    if ctx.has_sync:
+        targets.append((named(ctx, 'sync.get_lookup'), 'send'))
     targets.append(('unsync::cache::Cache::get', 'increment'))
     for nid, what in targets:
         ctx.body(nid)
